@@ -50,6 +50,7 @@ def run(ctx: Ctx):
     from .common import value_any_lint
 
     value_any_lint(ctx)
+    empties_from_pruning_base(ctx)
     from .common import transform_pairing_table
 
     transform_pairing_table(ctx)
@@ -371,3 +372,69 @@ def element_transform_lookup(ctx: Ctx):
     ctx.count("element-transform lookup cases", n)
     ctx.ob("hidden-set.lookup", where, bad or f"{n} (key spelling, id) cases", "the transforms keyed by the element's id are found whether the id is an int, its string, or a digit-only string id", not bad,
            "an explicit hide on such an element is silently dropped: the element stays visible")
+
+
+def empties_from_pruning_base(ctx: Ctx):
+    """Which elements are "empty" (dropped when the dimension is pruned) is decided from the UNWEIGHTED pruning base and from
+    nothing else.  Every `<Collator>.display_order(...)` call of the order helpers (matrix and stripe) binds its `empty_idxs`
+    parameter to a value whose full expansion inside the helper class reads the pruning base / pruning mask of the measures
+    only: a value that also depends on the sort VALUES (rows whose sort measure is NaN), on weights or on a display
+    transform prunes rows that have respondents."""
+    from ..symex import expand
+    from .common import positional_args
+
+    ALLOWED = ("pruning_base", "rows_pruning_mask", "columns_pruning_mask", "rows_pruning_base", "columns_pruning_base")
+    n = 0
+    for short in (MA, "stripe/assembler.py"):
+        mod = ctx.repo.module(short)
+        for ci in mod.classes.values():
+            for name, m in ci.members.items():
+                for c in ast.walk(m.node):
+                    if not (isinstance(c, ast.Call) and isinstance(c.func, ast.Attribute) and c.func.attr == "display_order" and "Collator" in u(c.func.value)):
+                        continue
+                    # the collator class may be chosen by a local (`CollatorCls.display_order`): every collator has `empty_idxs`
+                    cands = [x for x in ctx.repo.module("collator.py").classes.values() if "display_order" in x.members]
+                    callee = None
+                    tname = u(c.func.value)
+                    for x in cands:
+                        if x.name == tname:
+                            callee = x.members["display_order"]
+                    if callee is None:
+                        callee = next((x.members["display_order"] for x in cands if len([p_ for p_ in x.members["display_order"].params if p_ not in ("cls", "self")]) == len(c.args) + len(c.keywords)), None)
+                    args = positional_args(ctx, c, callee) if callee is not None else None
+                    params = [p_ for p_ in callee.params if p_ not in ("cls", "self")] if callee is not None else []
+                    where = f"{short}::{ci.name}.{name} [{tname}.display_order]"
+                    if args is None or "empty_idxs" not in params or params.index("empty_idxs") >= len(args):
+                        ctx.undecided("empties.source", where, u(c)[:100], "the argument bound to `empty_idxs`")
+                        continue
+                    n += 1
+                    arg = args[params.index("empty_idxs")]
+                    # expand `self.<member>` chains of the helper class
+                    reads, opaque_ = set(), False
+                    todo, seen = [arg], set()
+                    while todo:
+                        x = todo.pop()
+                        for a in ast.walk(x):
+                            if isinstance(a, ast.Attribute) and isinstance(a.value, ast.Name) and a.value.id == "self":
+                                if a.attr in seen:
+                                    continue
+                                seen.add(a.attr)
+                                mm = ctx.repo.lookup(ci, a.attr)
+                                if mm is not None and mm.kind in ("lazyproperty", "property"):
+                                    try:
+                                        todo.append(expand(ctx.repo, ci, a.attr, stop=lambda q: True))
+                                    except Exception:
+                                        opaque_ = True
+                            if isinstance(a, ast.Attribute) and u(a.value) in ("self._measures", "self._second_order_measures"):
+                                reads.add(a.attr)
+                    extra = sorted(r for r in reads if r not in ALLOWED)
+                    own = sorted(s_ for s_ in seen if s_ in ("_element_values", "_subtotal_values", "_measure", "_format", "_order_spec"))
+                    if extra or own:
+                        ctx.violated("empties.source", where, f"`empty_idxs` <- {u(arg)[:60]}: also depends on {extra + ['self.' + o for o in own]}", "the pruning base / pruning mask (unweighted counts) only",
+                                     "an element with respondents is dropped under `prune` because of the value it is sorted by (NaN), a weight, or a transform")
+                    elif reads:
+                        ctx.held("empties.source", where, f"`empty_idxs` <- {u(arg)[:60]}: reads {sorted(reads)}", "the pruning base / pruning mask only")
+                    else:
+                        ctx.undecided("empties.source", where, f"`empty_idxs` <- {u(arg)[:60]}: no measure read derived", "the pruning base / pruning mask")
+    ctx.count("collator calls with an empties argument", n)
+    ctx.require_min("collator calls with an empties argument", 6)
